@@ -1,6 +1,7 @@
 """Engine E4: TCP / TLS server task over loopback (black-box + hook events). Generators + runner."""
 import json
 import os
+import random
 
 import vf
 from mb import *
@@ -300,6 +301,81 @@ def gen_c09_server(rng, thorough=False):
                      req(0, req_wsr(1, 5), 1), close(0)]
             scs.append(scenario(len(scs), steps, variant=variant, max_sessions=2, auth="hash" if variant == "tls_authz" else None,
                                 tag=f"c09-chain-presented-{variant}-{cert}"))
+    return scs
+
+
+# ------------------------------------------------------------------ spec -> impl: behaviours of ServerTask_MC simulated by TLC
+def sim_scripts(workdir, num, seed, max_sessions=2):
+    """environment moves of behaviours chosen by TLC's simulation of ServerTask_MC, as e4 scripts: a connection arriving, a
+    peer that stops reading, a peer closing, level changes, shutdown / handle drop; requests are added on connections
+    that must still be served so that isolation and eviction are observed at every point of the model's interleaving"""
+    import re
+    import subprocess
+    import shutil
+    cfg = os.path.join(workdir, "sim_servertask.cfg")
+    os.makedirs(workdir, exist_ok=True)
+    vf.write_cfg(cfg, "SimSpec", {"MaxSessions": max_sessions, "MaxConns": 7, "QCap": 8, "SCap": 8, "CCap": 8, "MaxDecodes": 14, "MaxCloses": 3,
+                                  "FanOut": '"try"', "Moves": 11}, extra=["ACTION_CONSTRAINT PrintScript"])
+    md = os.path.join(workdir, "simmd_servertask")
+    env = dict(os.environ)
+    env["JAVA_TOOL_OPTIONS"] = "-Xss64m -Xmx4g"
+    p = subprocess.run(["tlc", "-workers", "1", "-seed", str(seed), "-simulate", f"num={num}", "-depth", "150", "-metadir", md, "-cleanup",
+                        "-noGenerateSpecTE", "-config", cfg, "ServerTask_Sim.tla"], cwd=vf.SPEC, env=env, stdout=subprocess.PIPE,
+                       stderr=subprocess.STDOUT, text=True, timeout=900)
+    shutil.rmtree(md, ignore_errors=True)
+    rng = random.Random(seed)
+    scs = []
+    seen = set()
+    cap = max(1, max_sessions)
+    for m in re.finditer(r'<<"SCRIPT", "(.*)">>', p.stdout):
+        raw = bytes(m.group(1), "utf-8").decode("unicode_escape")
+        if raw in seen:
+            continue
+        seen.add(raw)
+        steps = []
+        live = []
+        blocked = set()
+        ids = {}
+        ended = False
+        for mv in json.loads(raw):
+            o = mv["op"]
+            if o == "conn":
+                c = len(ids)
+                ids[mv["c"]] = c
+                steps.append(conn(c, rng.choice(SRCS4)))
+                live.append(c)
+                if len(live) > cap:
+                    live.pop(0)
+                steps.append(rand_req(rng, c, (1, 2)))
+            elif o == "flood":
+                c = ids.get(mv["c"])
+                if c in live and c not in blocked:
+                    steps.append({"op": "flood", "c": c, "unit": 1})
+                    blocked.add(c)
+            elif o == "close":
+                c = ids.get(mv["c"])
+                if c in live and c not in blocked:
+                    live.remove(c)
+                    steps.append(close(c))
+            elif o == "decode":
+                steps.append({"op": "decode", "level": [rng.randrange(4), rng.randrange(3), rng.randrange(3)]})
+            elif o in ("shutdown", "drop"):
+                steps.append({"op": o})
+                steps.append(conn(len(ids)))
+                ended = True
+                break
+            ok = [c for c in live if c not in blocked]
+            if ok and rng.random() < 0.5:
+                steps.append(rand_req(rng, rng.choice(ok), (1, 2)))
+        if not ended:
+            for c in live:
+                if c not in blocked:
+                    steps.append(req(c, req_read(3, 0, 2), 1))
+            steps.append({"op": rng.choice(["shutdown", "drop"])})
+            steps.append(conn(len(ids)))
+        scs.append(scenario(len(scs), steps, max_sessions=max_sessions, tag="tlc-simulated-servertask"))
+    if not scs:
+        raise vf.ToolError("TLC simulation of ServerTask_Sim printed no script:\n" + p.stdout[-2000:])
     return scs
 
 
